@@ -15,10 +15,10 @@ Definition C30_statement (wsem : list wtok -> option (list cond)) (osem : list n
    conditions (and the empty clause as no condition), every [osem] that orders by the listed columns ascending
    with ties in table order, and every history of create / create-if / insert / read / update / delete with
    equality and comparison filters - including nil filters and filters on unknown columns - plus SetPrimaryKey,
-   Sort, ReadOne, UpdateOne, DeleteOne and close-and-reopen of the handle, the handle (tree with fix 1e0c750d)
+   Sort, ReadOne, UpdateOne, DeleteOne and close-and-reopen of the handle, the handle (tree with fixes 1e0c750d, 704512eb)
    returns exactly the results of the keyed in-memory table: reads are the filtered rows in the requested order,
-   the keyed operations act on the column the handle has flagged as its key (none after a reopen until Create
-   or SetPrimaryKey) and fail when there is none.  history_wf: written rows have one value per column. *)
+   the keyed operations act on the column the handle has flagged as its key (none after a reopen until Create,
+   CreateIf or SetPrimaryKey) and fail when there is none.  history_wf: written rows have one value per column. *)
 Theorem C30_refines_table :
   forall (wsem : list wtok -> option (list cond)) (osem : list nat -> list row -> list row) (cols : list column),
     wsem [] = Some [] ->
@@ -49,6 +49,11 @@ Theorem C30_old_refuted_nilfirst :
             results (run_old wsem_ref osem_ref demo_cols h) <> results (spec_run demo_cols h).
 Proof. exists witness_nilfirst. exact old_refuted_nilfirst. Qed.
 
+Theorem C30_old_refuted_reopen_key :
+  exists h, history_wf demo_cols h = true /\
+            results (run_nokey wsem_ref osem_ref demo_cols h) <> results (spec_run demo_cols h).
+Proof. exists witness_reopen_key. exact old_refuted_reopen_key. Qed.
+
 (* non-vacuity: the reference reading satisfies both hypotheses, and a concrete history with a nil filter,
    an unknown column, a key collision and a two-filter update has non-trivial results *)
 Example C30_hypotheses_satisfiable :
@@ -78,9 +83,9 @@ Example C30_nonvacuous_keyed :
   let h := [OCreateIf; OInsert rec1; OInsert rec2; OInsert rec3;
             OSort [L "AGE"; L "name"]; ORead [FBy (L "age") OpGt (VI 0)];
             OReadOne (VS u2); OUpdateOne rec1'; ODeleteOne (VS u2); ODeleteOne (VS u2);
-            OReopen; OReadOne (VS u1); OSetKey (L "Name"); OReadOne (VS (L "Tommy")); ORead []] in
+            OReopen; OReadOne (VS u1); OCreateIf; OReadOne (VS u1); OSetKey (L "Name"); OReadOne (VS (L "Tommy")); ORead []] in
   history_wf demo_cols h = true /\
   results (run wsem_ref osem_ref demo_cols h) =
     [ROk; ROk; ROk; ROk; ROk; RRows [rec2; rec3; rec1]; RRows [rec2]; ROk; ROk; RErr;
-     ROk; RErr; ROk; RRows [rec1']; RRows [rec1'; rec3]].
+     ROk; RErr; ROk; RRows [rec1']; ROk; RRows [rec1']; RRows [rec1'; rec3]].
 Proof. vm_compute. split; reflexivity. Qed.
